@@ -70,6 +70,14 @@ def check(ctx):
     rl = ["it " + hexs(b) for b in random_buffers(rnd, 3000 if ctx.tier == "quick" else 60000)]
     fw.run_suite(ctx, exe, "S-it/skeleton", lines, "tag iteration")
     fw.run_suite(ctx, exe, "S-it/random", rl, "tag iteration")
+    ci = fw.corpus_inputs(ctx, random.Random(ctx.seed + 77))
+    its = set()
+    for rt, b in ci:
+        its.add("it " + (b.hex() or "-"))
+        for off in (24, 36, 28, 40):
+            if not rt and len(b) > off:
+                its.add("it " + b[off:].hex())
+    fw.run_suite(ctx, exe, "S-it/corpus", sorted(its), "tag iteration (coverage-guided corpus + mutants)")
     fw.conclude(ctx, broken)
 
 
